@@ -603,6 +603,37 @@ pub fn run(ctx: &Ctx) -> Report {
                     (En::LE, 8) => bit_staging::<LE, u64>(e, &ops, &faults, rep),
                     (En::LE, _) => bit_staging::<LE, u128>(e, &ops, &faults, rep),
                 }
+                // the bit reader over the adapter must behave exactly as over memory: a random history
+                // (table-driven code reads, peeks, seeks, positions) on a stream that ends with the data,
+                // over a Cursor, a small BufReader and a source with short reads and interruptions
+                if b <= 8 {
+                    use super::readhist::{check, gen_history, GenOpts, RCase};
+                    let kind = match b {
+                        1 => RKind::Buf8,
+                        2 => RKind::Buf16,
+                        4 => RKind::Buf32,
+                        _ => RKind::Buf64,
+                    };
+                    let o = GenOpts { seeks: true, io: true, codes: true, clones: false, pos: true, max_read_code_len: 200 };
+                    let mut crep = Report::new("C11");
+                    let cops = super::c07::code_ops_for(kind, &mut crep);
+                    let nb = (1 + rng.below(6) as usize) * b.max(2);
+                    let pat = [crate::rng::Pattern::Random, crate::rng::Pattern::Sparse, crate::rng::Pattern::Ones][rng.below(3) as usize];
+                    let img = super::readhist::random_image(&mut rng, pat, nb, e);
+                    for be in [RBackend::AdCursor, RBackend::AdBufReader, RBackend::AdHostile] {
+                        let cfg = RCfg { e, kind, be };
+                        let mut hops = vec![];
+                        for op in gen_history(&mut rng, cfg, &img, 12, &o, &cops) {
+                            let is_pos = op == ROp::Pos;
+                            hops.push(op);
+                            if !is_pos {
+                                hops.push(ROp::Pos);
+                            }
+                        }
+                        check("C11", &RCase { cfg, image: img.clone(), ops: hops }, rep, false);
+                        rep.count("bit_reader_histories_over_adapters", 1);
+                    }
+                }
                 match (e, b) {
                     (En::BE, 1) => both!(BE, u8),
                     (En::BE, 2) => both!(BE, u16),
@@ -633,6 +664,10 @@ pub fn run(ctx: &Ctx) -> Report {
 
 pub fn replay(case: &str, rep: &mut Report) {
     let kv = Kv::parse(case);
+    if case.contains("cfg=") && case.contains("image=") {
+        super::readhist::check("C11", &super::readhist::RCase::from_kv(case), rep, false);
+        return;
+    }
     if kv.get("dir") == "staging" {
         let f = kv.get("faults");
         let faults: Vec<Fault> = if f.is_empty() { vec![] } else { f.split(',').map(parse_fault).collect() };
